@@ -764,7 +764,7 @@ package list
 //@   tag agreesWithSeqLazy
 //
 //@ lemma listMinMax[T any](a, b, c T, ord fp.Ord[T])
-//@   prop C12 C11
+//@   prop C12 C11 C10
 //@   option unroll
 //@   requires ord.Less(a, b) && ord.Less(b, c) && ord.Less(a, c) && !ord.Less(b, a) && !ord.Less(c, b) && !ord.Less(c, a)
 //@   ensures Eq(Min(mk(2, fp.Seq[T]{a, b, c}), ord), fp.Some(a)) && Eq(Min(mk(0, fp.Seq[T]{c, a, b}), ord), fp.Some(a)) && Eq(Min(mk(3, fp.Seq[T]{b, c, a}), ord), fp.Some(a))
